@@ -194,6 +194,8 @@ namespace plan
       rr = sw.chance(1, 3);
     }
     ops.push_back(g_op(g, "mode"));
+    if (prop == "C17" && sw.chance(1, 3))
+      ops.back().a[0] = sw.chance(1, 2) ? 0 : 2; // unplanted object problems: contradictory equalities, empty intersections
     // declarations first (unit 0)
     for (int i = 0, n = static_cast<int>(sw.range(1, 4)); i < n; ++i)
       ops.push_back(g_op(g, "real"));
